@@ -126,6 +126,41 @@ class Freshness:
             "_history": AV("cont", "internal", [AV("cont", "internal", [AV("arr", "internal", why="self._history[...][...]")], why="self._history[...]")], why="self._history"),
         }
 
+    def retained_names(self, fi: FuncInfo) -> Dict[str, str]:
+        """Local names whose object -- or a shallow copy dict(v)/list(v)/v.copy()
+        -- is stored into an attribute of self in this function."""
+        cache = getattr(self, "_retained", None)
+        if cache is None:
+            cache = self._retained = {}
+        if fi.qualname in cache:
+            return cache[fi.qualname]
+        out: Dict[str, str] = {}
+        from .model import walk_no_nested
+
+        def aliases(v: ast.expr) -> Optional[str]:
+            if isinstance(v, ast.Name):
+                return v.id
+            if isinstance(v, ast.Call) and dotted(v.func) in ("dict", "list", "tuple") and len(v.args) == 1 and isinstance(v.args[0], ast.Name):
+                return v.args[0].id
+            if isinstance(v, ast.Call) and isinstance(v.func, ast.Attribute) and v.func.attr == "copy" and isinstance(v.func.value, ast.Name) and not v.args:
+                return v.func.value.id
+            if isinstance(v, ast.Dict) and any(k is None and isinstance(x, ast.Name) for k, x in zip(v.keys, v.values)):
+                return next(x.id for k, x in zip(v.keys, v.values) if k is None and isinstance(x, ast.Name))
+            return None
+
+        flow = flow_of(fi.node)
+        for n in walk_no_nested(fi.node):
+            if isinstance(n, ast.Assign):
+                for t in n.targets:
+                    base = t.value if isinstance(t, ast.Subscript) else t
+                    if isinstance(base, ast.Attribute) and isinstance(base.value, ast.Name) and base.value.id == "self":
+                        a = aliases(n.value)
+                        if a is not None and a not in fi.params:
+                            # only containers / arrays built locally (a dict literal, comprehension, call result)
+                            out[a] = base.attr
+        cache[fi.qualname] = out
+        return out
+
     # ------------------------------------------------------------ summaries
     def summary(self, fi: FuncInfo) -> AV:
         """Abstract value returned by fi (join over its return statements)."""
@@ -208,6 +243,10 @@ class Freshness:
                 return env[e.id]
             if e.id in ("self", "cls"):
                 return AV("unknown", why="self")
+            if e.id in self.retained_names(fi):
+                # the object (or a shallow copy of it) is also stored in an attribute:
+                # its arrays are retained, i.e. internal from the caller's point of view
+                return AV("cont", "internal", [AV("arr", "internal", why=f"elements of `{e.id}` are also stored in self.{self.retained_names(fi)[e.id]}")], why=f"`{e.id}` is retained in self.{self.retained_names(fi)[e.id]}")
             flow = flow_of(fi.node)
             ds = flow.reaching(at, e.id) if at is not None else []
             if not ds:
